@@ -229,7 +229,7 @@ struct GitCase {
 pub fn run(run: &'static Run) {
     run.rule(format!(
         "specs: all lists of <= {} of {} fetch refspecs (globs incl. prefix/suffix overlapping short names: a*a, ab*ba, h*s, *a; force; negative full-name; partial names; object id with/without destination; partial destinations) \
-         x remote refs: all subsets (<= {} names) of {:?}; every list is also fetched by real git from a generated remote holding all names, and git's resulting refs are compared with the transcription. \
+         x remote refs: all subsets (<= {} names) of {:?}; every single spec (thorough: every unordered pair) is also fetched by real git from a generated remote holding all names, and git's resulting refs are compared with the transcription. \
          non-trivial = at least one mapping results (or an overlapping glob had to be refused)",
         run.pick(2, 3),
         SPECS.len(),
@@ -289,12 +289,14 @@ pub fn run(run: &'static Run) {
         "git-fetch",
         vkit::Opts::default().chunk(32),
         |emit| {
-            // quick: every single spec (a git fetch costs seconds on a loaded machine); thorough: all ordered pairs as well
+            // quick: every single spec (a git fetch costs seconds on a loaded machine); thorough: all unordered pairs as well
             let quick = run.quick();
             enumerate::seqs(SPECS, 1, 2, |s| {
                 let small = |x: &&str| SPECS.iter().position(|y| y == x).map_or(false, |i| i < 7 || i == 14);
                 let _ = small;
-                if quick && s.len() == 2 {
+                let pos = |x: &str| SPECS.iter().position(|y| *y == x).unwrap_or(0);
+                // pairs: unordered (git's result does not depend on the order of the refspecs on the command line)
+                if s.len() == 2 && (quick || pos(s[0]) > pos(s[1])) {
                     return;
                 }
                 emit(GitCase { specs: s.iter().map(|s| s.replace(HEX, pinned)).collect() })
